@@ -57,6 +57,7 @@ type timedSpec struct {
 	cmds   []timedCmd
 	after  []timedCmd
 	allow  bool
+	interactive bool // the task is declared interactive (its commands are attached to the standard input)
 }
 
 func (s timedSpec) line() string {
@@ -104,6 +105,7 @@ func runTimedSpec(s timedSpec) (obs runObs, elapsed time.Duration, err error) {
 	t := &task.Task{Env: variables.NewVariables(), Variables: variables.NewVariables(), Name: "t", AllowFailure: s.allow}
 	d := time.Duration(s.T) * time.Millisecond
 	t.Timeout = &d
+	t.Interactive = s.interactive
 	for i, c := range s.before {
 		t.Before = append(t.Before, c.shell(trace, fmt.Sprintf("b%d", i), s.T))
 	}
@@ -133,7 +135,7 @@ func runTimedSpec(s timedSpec) (obs runObs, elapsed time.Duration, err error) {
 func timedCase(col *Collector, s timedSpec, tag string) {
 	obs, elapsed, err := runTimedSpec(s)
 	cs := Case{Line: s.line(), Tags: []string{tag, fmt.Sprintf("T=%d", s.T)}}
-	cs.Replay = cs.Line + " kinds=" + s.kinds()
+	cs.Replay = cs.Line + " kinds=" + s.kinds() + fmt.Sprintf(" interactive=%v", s.interactive)
 	cs.NonTrivial = true
 	if err != nil {
 		cs.Impl = "no-result"
@@ -247,6 +249,11 @@ func runC13(col *Collector, tier string, seed int64) {
 	for _, kind := range []string{"sleep", "loop"} {
 		add(timedSpec{T: Ts[rng.Intn(len(Ts))], before: []timedCmd{{kind, 0}}, cmds: []timedCmd{q}, after: []timedCmd{q}}, "before-hook")
 		add(timedSpec{T: Ts[rng.Intn(len(Ts))], cmds: []timedCmd{q}, after: []timedCmd{{kind, 0}, q}, allow: rng.Intn(2) == 0}, "after-hook")
+	}
+	// interactive tasks are bounded like any other
+	for _, kind := range []string{"sleep", "loop"} {
+		add(timedSpec{T: Ts[rng.Intn(len(Ts))], cmds: []timedCmd{q, {kind, 0}, q}, interactive: true}, "interactive")
+		add(timedSpec{T: Ts[rng.Intn(len(Ts))], cmds: []timedCmd{{kind, 0}}, after: []timedCmd{q}, interactive: true, allow: true}, "interactive")
 	}
 	// each command gets the full timeout: three commands at 40% each
 	for _, T := range Ts {
